@@ -52,7 +52,7 @@ func (p *Parseable) PeekUntil(isMatch func(rune) bool) (Parseable, bool) {
 
 // Remainder returns the rest of the text.
 func (p *Parseable) Remainder() Parseable {
-	rest, _ := p.PeekUntil(Is(utf8.RuneError))
+	rest, _ := p.PeekUntil(func(rune) bool { return false })
 	return rest
 }
 
